@@ -137,7 +137,7 @@ def requests(tier, seed, P):
         for op in all_ops(n, rnd, cap=40):
             reqs.append(sx.show(['rope', 'prod', ch, op]))
     # (3) histories from `new` and from `from_iter`
-    nh, steps = (24, 400) if tier == 'quick' else (400, 3000)
+    nh, steps = (24, 400) if tier == 'quick' else (240, 1500)
     profiles = ['mixed', 'append', 'fill', 'drainy', 'shrink']
     for h in range(nh):
         prof = profiles[h % len(profiles)]
@@ -274,11 +274,20 @@ def evaluate(res, rows, P, legacy=False):
         if fail:
             res.corr['impl_failures'].append({'request': req, 'impl': resp, 'what': fail, 'op': op[0],
                                               'construction': 'history' if len(row) > 2 else 'state'})
-    res.extra['layout_equal_fraction'] = round(layout_equal / layout_total, 6) if layout_total else None
+    res.extra['layout_equal'] = res.extra.get('layout_equal', 0) + layout_equal
+    res.extra['layout_total'] = res.extra.get('layout_total', 0) + layout_total
     if rows:
         for k in (1, len(rows) // 2, len(rows) - 1):
             if k < len(rows):
                 res.corr['samples'].append({'request': rows[k][0][:400], 'impl': rows[k][1][:400], 'model': out[2 * k][:400]})
+
+
+def _work(job):
+    binp, chunk, P, tier, seed = job
+    r = core.Result('C09', tier, seed)
+    rc, rows = core.run_oracle(binp, chunk)
+    evaluate(r, rows, P)
+    return core.summarize(r)
 
 
 def run(res, ctx):
@@ -290,8 +299,13 @@ def run(res, ctx):
                                                 'log': res.extra.get('cargo_error', '')[-1500:]})
         return core.finish(res, LEVEL, {}, ASSUMPTIONS, proof_ok)
     reqs = ctx.get('replay_requests') or requests(res.tier, res.seed, P)
-    rc, rows = core.run_oracle(binp, reqs)
-    evaluate(res, rows, P)
+    # bounded memory + all cores: the request stream is cut into jobs (history requests expand to thousands of rows)
+    # a history request expands to one row per step, each carrying the whole state: weigh it by its step count
+    weight = lambda r: (r.count('(') // 2 + 1) if r.startswith('(rope-hist') else 1
+    jobs = [(binp, grp, P, res.tier, res.seed) for grp in core.cut_jobs(reqs, weight, 5000)]
+    core.parallel(res, _work, jobs)
+    lt = res.extra.get('layout_total', 0)
+    res.extra['layout_equal_fraction'] = round(res.extra.get('layout_equal', 0) / lt, 6) if lt else None
 
     def search():
         extra = requests('thorough', res.seed + 1, P)
